@@ -13,6 +13,14 @@
 //
 // Only the hash primitives (core/crypto) and the field type (core/felt) are taken from juno; nothing
 // in here uses core/trie, core/trie2, BitArray/Path or core/state.
+//
+// The hash primitives are switchable: by default they are juno's core/crypto (fast; what the engines of
+// other families use), and UseIndependent() replaces them, for the calling engine, by the references of
+// harness/internal/refcrypto (gnark-crypto's Pedersen cross-validated against a textbook math/big
+// evaluation, Hades/Poseidon from derived round constants) so that nothing of the code under test is
+// trusted (C01). WithJuno evaluates a function under juno's primitives to LOCALISE a divergence: a root
+// that differs from the independent reference but equals the reference built on core/crypto is a defect
+// of the primitive, not of the trie.
 package refimpl
 
 import (
@@ -23,12 +31,55 @@ import (
 
 	"github.com/NethermindEth/juno/core/crypto"
 	"github.com/NethermindEth/juno/core/felt"
+
+	"verifharness/internal/refcrypto"
 )
 
 type HashFn func(a, b *felt.Felt) felt.Felt
 
-func Pedersen(a, b *felt.Felt) felt.Felt { return crypto.Pedersen(a, b) }
-func Poseidon(a, b *felt.Felt) felt.Felt { return crypto.Poseidon(a, b) }
+// prims is the set of hash primitives the reference is evaluated with.
+type prims struct {
+	pedersen, poseidon HashFn
+	poseidonMany       func(elems ...*felt.Felt) felt.Felt
+}
+
+var (
+	junoPrims = prims{
+		pedersen:     func(a, b *felt.Felt) felt.Felt { return crypto.Pedersen(a, b) },
+		poseidon:     func(a, b *felt.Felt) felt.Felt { return crypto.Poseidon(a, b) },
+		poseidonMany: func(elems ...*felt.Felt) felt.Felt { return crypto.PoseidonElems(elems...) },
+	}
+	independentPrims = prims{pedersen: refcrypto.PedersenFast, poseidon: refcrypto.Poseidon, poseidonMany: refcrypto.PoseidonMany}
+	cur              = junoPrims
+)
+
+// UseIndependent switches the reference to the independent primitives (after their self test) and
+// returns the function that restores the previous setting. Not safe for concurrent use with the
+// reference functions (engines are sequential).
+func UseIndependent() (restore func(), err error) {
+	if err := refcrypto.SelfTest(); err != nil {
+		return func() {}, err
+	}
+	prev, prevInd := cur, independent
+	cur, independent = independentPrims, true
+	return func() { cur, independent = prev, prevInd }, nil
+}
+
+// Independent reports whether the independent primitives are in use.
+func Independent() bool { return independent }
+
+var independent bool
+
+// WithJuno evaluates f with juno's core/crypto primitives, whatever the current setting.
+func WithJuno(f func()) {
+	prev, prevInd := cur, independent
+	cur, independent = junoPrims, false
+	defer func() { cur, independent = prev, prevInd }()
+	f()
+}
+
+func Pedersen(a, b *felt.Felt) felt.Felt { return cur.pedersen(a, b) }
+func Poseidon(a, b *felt.Felt) felt.Felt { return cur.poseidon(a, b) }
 
 // KV is a key/value set; keys are non-negative integers < 2^height.
 type KV map[string]felt.Felt // key: decimal string of the integer key (map keys must be comparable)
@@ -251,16 +302,16 @@ func shortString(s string) felt.Felt {
 
 // ContractLeaf is the value stored in the contracts trie under the contract address.
 func ContractLeaf(classHash, storageRoot, nonce *felt.Felt) felt.Felt {
-	a := crypto.Pedersen(classHash, storageRoot)
-	b := crypto.Pedersen(&a, nonce)
+	a := Pedersen(classHash, storageRoot)
+	b := Pedersen(&a, nonce)
 	zero := felt.Zero
-	return crypto.Pedersen(&b, &zero)
+	return Pedersen(&b, &zero)
 }
 
 // ClassLeaf is the value stored in the classes trie under the (Sierra) class hash.
 func ClassLeaf(compiledClassHash *felt.Felt) felt.Felt {
 	tag := shortString("CONTRACT_CLASS_LEAF_V0")
-	return crypto.Poseidon(&tag, compiledClassHash)
+	return Poseidon(&tag, compiledClassHash)
 }
 
 // StateCommitment combines the two roots; since0140 selects the formula of Starknet >= 0.14.0.
@@ -272,7 +323,7 @@ func StateCommitment(contractsRoot, classesRoot *felt.Felt, since0140 bool) felt
 		return *contractsRoot
 	}
 	tag := shortString("STARKNET_STATE_V0")
-	return crypto.PoseidonElems(&tag, contractsRoot, classesRoot)
+	return cur.poseidonMany(&tag, contractsRoot, classesRoot)
 }
 
 // Contract is the abstract per-contract record of the model state.
